@@ -263,6 +263,30 @@ func (in *inst) exec(line string) (res string) {
 	case "getorcompute":
 		v := parseVal(t[2])
 		out = vb(c.GetOrCompute(t[1], func() interface{} { in.fnlog = append(in.fnlog, "f"); return v }, time.Duration(atoi64(t[3]))))
+	case "getorcomputeslow":
+		// the user function takes time: the virtual clock advances by t[4] ns while it runs
+		v := parseVal(t[2])
+		out = vb(c.GetOrCompute(t[1], func() interface{} {
+			in.fnlog = append(in.fnlog, "f")
+			vshim.Advance(atoi64(t[4]))
+			return v
+		}, time.Duration(atoi64(t[3]))))
+	case "computeslow":
+		sv, sd := parseAct(t[2])
+		nv, nd := parseAct(t[3])
+		out = vb(c.Compute(t[1], func(old interface{}, loaded bool) (interface{}, bool) {
+			vshim.Advance(atoi64(t[5]))
+			if loaded {
+				in.fnlog = append(in.fnlog, "g(some "+val(old)+")")
+				return sv, sd
+			}
+			if old != nil {
+				in.fnlog = append(in.fnlog, "g(BAD-nonzero-old "+val(old)+")")
+			} else {
+				in.fnlog = append(in.fnlog, "g(none)")
+			}
+			return nv, nd
+		}, time.Duration(atoi64(t[4]))))
 	case "compute":
 		sv, sd := parseAct(t[2])
 		nv, nd := parseAct(t[3])
@@ -387,6 +411,9 @@ func (g *gen) d() int64 {
 	}
 	return d
 }
+// slow: how long a slow user function runs (ns of virtual time), around the TTL lattice
+func (g *gen) slow() int64 { return []int64{0, 1, 4, 5, 6, 49, 50, 51, 1000, 1001}[g.r.intn(10)] }
+
 func (g *gen) act() string {
 	if g.r.chance(1, 3) {
 		return "d:" + g.v()
@@ -419,8 +446,14 @@ func (g *gen) op() string {
 	case n < 51:
 		return fmt.Sprintf("getandrefresh %s %d", g.key(), g.d())
 	case n < 56:
+		if r.chance(1, 3) {
+			return fmt.Sprintf("getorcomputeslow %s %s %d %d", g.key(), g.v(), g.d(), g.slow())
+		}
 		return fmt.Sprintf("getorcompute %s %s %d", g.key(), g.v(), g.d())
 	case n < 63:
+		if r.chance(1, 3) {
+			return fmt.Sprintf("computeslow %s %s %s %d %d", g.key(), g.act(), g.act(), g.d(), g.slow())
+		}
 		return fmt.Sprintf("compute %s %s %s %d", g.key(), g.act(), g.act(), g.d())
 	case n < 68:
 		return "getanddelete " + g.key()
